@@ -345,7 +345,8 @@ class MediaCombineDisallowed(Exception):
         return self.args[0]
 
     def _combinable(rule):
-        combinable = rule.COMMENT, rule.STYLE_RULE, rule.IMPORT_RULE
+        # only what CSSMediaRule.insertRule accepts and keeps its meaning
+        combinable = rule.COMMENT, rule.STYLE_RULE
         return rule.type in combinable
 
 
